@@ -179,6 +179,14 @@ Definition step (w : world) (o : op) : world * list obs :=
     let e := packet_eqb (getpk w (n 0%nat)) (getpk w (n 1%nat)) in (w, [ob T_B [b2z e; b2z (negb e)] []])
   else if c =? 30 then (w, [k_obs (getpk w (n 0%nat))])
   else if c =? 31 then (setpk w (n 0%nat) (mut_packet (getpk w (n 0%nat))), [])
+  else if c =? 45 then
+    (* in-place edit of the packet's payload through the non-const getPayload(): EthernetPayload::setData on it - the payload
+       size changes under the packet *)
+    let p := getpk w (n 0%nat) in
+    match p_pl p with
+    | Some pl => (setpk w (n 0%nat) (set_payload p {| pl_type := pl_type pl; pl_data := set_data 8 (pl_data pl) (b 0%nat) |}), [])
+    | None => (w, [])
+    end
   else if c =? 43 then
     (* Payload::setMessageType + setRawPayloadType on the packet's payload: the type changes, the bytes stay *)
     let p := getpk w (n 0%nat) in
